@@ -41,6 +41,11 @@ def oracle_pair(res, case, t1, t2, s1, s2, kw1, kw2, out):
         res.fail('!= is not the negation of ==', case)
     if not (s1 == s1) or not (s2 == s2):
         res.fail('== is not reflexive', case)
+    if e12 and s1.none_is_leaf != s2.none_is_leaf:
+        res.fail('treespecs produced with different none_is_leaf settings compare equal', case, f'{s1!r} / {s2!r}')
+    if e12 and s1.namespace and s2.namespace and s1.namespace != s2.namespace:
+        res.fail('treespecs with incompatible (different non-empty) namespaces compare equal', case,
+                 f'{s1.namespace!r} / {s2.namespace!r}')
     if e12 and hash(s1) != hash(s2):
         res.fail('a == b but hash(a) != hash(b)', case, f'{s1!r} / {s2!r}')
     if e12 and len({s1, s2}) != 1:
